@@ -18,12 +18,13 @@ impl Compiler {
         requires gen_inv(*old(self))
         ensures
             //@VACUITY
+            sym_wf(final(self).symbols),
             sym_resolve(old(self).symbols, name@) is None ==> (r matches Err(Error::ReferenceError(_)) && final(self).instructions@ == old(self).instructions@),
             sym_resolve(old(self).symbols, name@) is Some ==> ({
                 let sym = sym_resolve(old(self).symbols, name@)->Some_0;
                 r is Ok && final(self).instructions@ =~= old(self).instructions@ + seq![opcode_byte(load_op(sym.scope))] + le16(sym.index as int)
             }),
-            final(self).symbols == old(self).symbols, final(self).loop_contexts == old(self).loop_contexts, gen_inv(*final(self)),
+            sym_same(final(self).symbols, old(self).symbols), final(self).loop_contexts == old(self).loop_contexts, gen_inv(*final(self)),
             r is Ok ==> gen_post(*old(self), *final(self), true),
     {
 //@ARM file=compiler.rs fn=compile_expression impl=Compiler arm="Expr::Identifier" rules="R1;R4"
@@ -42,6 +43,7 @@ impl Compiler {
         requires gen_inv(*old(self))
         ensures
             //@VACUITY
+            sym_wf(final(self).symbols),
             r is Ok ==> ({
                 let sym = sym_define_symbol(old(self).symbols, name@);
                 let k = old(self).log@.len() as int;
@@ -76,6 +78,7 @@ impl Compiler {
         requires gen_inv(*old(self))
         ensures
             //@VACUITY
+            sym_wf(final(self).symbols),
             (**left matches Expr::Identifier(name) && sym_resolve(old(self).symbols, name@) is None) ==> (r matches Err(Error::ReferenceError(_)) && final(self).instructions@ == old(self).instructions@),
             (r is Ok && **left matches Expr::Identifier(name)) ==> ({
                 let sym = sym_resolve(old(self).symbols, (**left)->Identifier_0@)->Some_0;
